@@ -86,14 +86,14 @@ fn build(case: &Case) -> Option<Result<ServiceInfo, String>> {
                     None => TxtProperty::from(p.key.as_str()),
                 })
                 .collect();
-            ServiceInfo::new(ty, "inst", "c16host.local.", "192.168.1.10", 80, v)
+            ServiceInfo::new(ty, "Inst 16", "c16host.local.", "192.168.1.10", 80, v)
         }
         Via::Slice => {
             let mut v: Vec<(String, String)> = Vec::new();
             for p in &case.props {
                 v.push((p.key.clone(), String::from_utf8(p.val.clone()?).ok()?));
             }
-            ServiceInfo::new(ty, "inst", "c16host.local.", "192.168.1.10", 80, &v[..])
+            ServiceInfo::new(ty, "Inst 16", "c16host.local.", "192.168.1.10", 80, &v[..])
         }
         Via::Map | Via::OptMap => {
             let mut m: HashMap<String, String> = HashMap::new();
@@ -104,9 +104,9 @@ fn build(case: &Case) -> Option<Result<ServiceInfo, String>> {
                 m.insert(p.key.clone(), String::from_utf8(p.val.clone()?).ok()?);
             }
             if case.via == Via::Map {
-                ServiceInfo::new(ty, "inst", "c16host.local.", "192.168.1.10", 80, m)
+                ServiceInfo::new(ty, "Inst 16", "c16host.local.", "192.168.1.10", 80, m)
             } else {
-                ServiceInfo::new(ty, "inst", "c16host.local.", "192.168.1.10", 80, Some(m))
+                ServiceInfo::new(ty, "Inst 16", "c16host.local.", "192.168.1.10", 80, Some(m))
             }
         }
     };
